@@ -2112,8 +2112,19 @@ class FileSet:
         """
         if max_interval is not None:
             max_interval = to_timedelta(max_interval, numbers_as="seconds")
-            start = to_datetime(start) - max_interval
-            end = to_datetime(end) + max_interval
+            # An open period (None, datetime.min or datetime.max) stays open:
+            if start is not None:
+                start = to_datetime(start)
+                if start - datetime.min < max_interval:
+                    start = datetime.min
+                else:
+                    start -= max_interval
+            if end is not None:
+                end = to_datetime(end)
+                if datetime.max - end < max_interval:
+                    end = datetime.max
+                else:
+                    end += max_interval
 
         files1 = list(
             self.find(start, end, filters=filters)
